@@ -135,7 +135,7 @@ pub fn build_cfg(n: &NetParams) -> Cfg {
     Cfg {
         last_n: LAST_NS[n.last_n as usize % LAST_NS.len()],
         max_outbound: n.max_outbound.max(1) as u32,
-        interval: [4u64, 8, 16][n.interval as usize % 3],
+        interval: [4u64, 8, 16, 32][n.interval as usize % 4],
         filter_batch: n.filter_batch.max(1) as usize,
         v1: n.v1,
         ..Cfg::default()
